@@ -208,3 +208,8 @@ BOUNDS = {
 }
 OUTSIDE = ["athrow through the handle (forwarded to the underlying iterator by design)", "concurrent use of handle and underlying iterator", "sequences longer than the bound"]
 NONTRIVIAL_RULE = ">=2 items and >=2 operations executed on the path"
+
+MANIFEST = {
+    "text": 'Symbolic operation sequences over a borrowed handle and its underlying iterator against a list-cursor reference model: underlying never closed, every item served exactly once in order, a closed handle yields nothing and does not advance the cursor; every tool of an application table as consumer. Nothing is claimed outside the bounds listed in the evidence file.',
+    "note": 'Trusted: CrossHair 0.0.110 (with short-circuiting off and a refined callable() model), z3 5.1.0, the harness oracles. Reference for what a tool consumes: the stdlib tool over a counting sync iterator.',
+}
